@@ -5,10 +5,11 @@ from ..world import World
 NONTRIVIAL = ()
 RULE = ("every state reachable by histories over the union menu (moves in/out of the region, retract/recover, "
         "deferred codes, disable, inch/relative, cancel/done, API add/update) up to the depth bound is followed by "
-        "print-started on a copy; (1) the canonical plugin state must equal that of a freshly initialised plugin "
-        "given the same regions and settings and then print-started; (2) for every distinct post-start state all "
-        "probe programs of <= 2 (3 thorough) commands over 12 probe commands give identical hook outputs on the "
-        "used and on the fresh plugin; non-trivial = states in which the comparison was made (all of them); "
+        "print-started on a copy and compared with a freshly initialised plugin given the same regions and "
+        "settings and then print-started: for every distinct (used state, fresh state) pair all probe programs of "
+        "<= 2 (3 thorough) commands over 12 probe commands, followed by the afterPrintDone hook, must give identical "
+        "hook outputs; if the canonical states differ the probes go one level deeper (a state difference alone is "
+        "not a violation: the property is behavioural); non-trivial = states in which the comparison was made (all of them); "
         "distinct = canonical states")
 ASSUMPTIONS = ["'same regions and settings' = the region list (ids, order, geometry) and the settings values at that moment",
                "probe programs start with G28 (after print-started the tracked position is unknown until homing)"]
